@@ -507,6 +507,16 @@ def run(ctx):
         sets = lambda k: [rng.sample(avail, rng.randint(0, len(avail))) for _ in range(k)]  # noqa: E731
         config_cases.append({'side': rng.choice(['provider', 'provider', 'consumer']), 'pre': sets(rng.randint(0, 2)),
                              'post': sets(rng.randint(1, 3)), 'chunk': rng.choice([0, 0, 7, 512])})
+    notify_cases = []
+    zero_pool = [None, '', 'gzip;q=0', '*;q=0', 'gzip;q=0, x-lz4;q=0.0, lz4;q=0', 'identity', 'br', 'gzip;q=0.000', ' ', ',']
+    for _ in range(ctx.n(10, 60)):
+        accepts = [rng.choice(zero_pool) for _ in range(3)] + [rng.choice(accept_pool) for _ in range(2)]
+        for _k in range(3):
+            h = gen_header(rng)
+            accepts.append(None if h is None else re.sub(r'[^\x20-\x7e\t]', ' ', h))
+        rng.shuffle(accepts)
+        notify_cases.append({'enabled': rng.choice([None, None, rng.sample(avail, rng.randint(1, len(avail)))]),
+                             'chunk': rng.choice([0, 0, 64]), 'accepts': accepts})
     codec_cases = []
     for _ in range(ctx.n(60, 600)):
         alg = rng.choice(avail)
@@ -526,7 +536,7 @@ def run(ctx):
         'server_choice': [{'header': lh(h), 'enabled': [lh(e) for e in en]} for h, en in sc_cases],
         'client_choice': [{'request_encodings': [lh(x) for x in c['request_encodings']], 'supported': [lh(x) for x in c['supported']],
                            'chunk': c['chunk']} for c in cc_cases],
-        'e2e': e2e_cases, 'raw': raw_cases, 'codec': codec_cases, 'conn': conn_cases, 'config': config_cases,
+        'e2e': e2e_cases, 'raw': raw_cases, 'codec': codec_cases, 'conn': conn_cases, 'config': config_cases, 'notify': notify_cases,
     }
     impl = ctx.impl('c17_impl', payload, timeout=1500)
     if impl.get('_crash'):
@@ -789,6 +799,39 @@ def run(ctx):
             ctx.fail(f'config: {bad[1]}', {'stream': 'config', 'clause': bad[0], 'side': c['side']},
                      {'stream': 'config', 'case': c, 'impl_trace': tr, 'oracle': {'verdict': 'fail', 'clause': bad[0]}})
     ctx.count('config', n_obs, [json_key(c) for c in config_cases], scenarios=len(config_cases), codings_used=n_used, oracle_only=True)
+    # provider -> subscriber path: the coding of every notification / SubscriptionEnd against the Subscribe's Accept-Encoding
+    n_notes = n_coded = n_none_allowed = 0
+    for c, tr in zip(notify_cases, impl['notify']):
+        if tr.get('spin') or 'subscribers' not in tr:
+            ctx.broken('correspondence', 'notify', {'case': c, 'impl': tr})
+            continue
+        if tr['errors']:
+            ctx.broken('correspondence', 'notify', {'why': 'scenario did not run to the end', 'errors': tr['errors'], 'case': c})
+        enabled = c['enabled'] if c['enabled'] is not None else list(avail)
+        for sd in tr['subscribers']:
+            if sd['subscribe_status'] != 200:
+                continue
+            rq = rfc_qualities(sd['accept'])
+            n_none_allowed += rq is not None and not any(q > 0 and n in enabled for n, q in rq.items())
+            bad = None
+            if not sd['notifications']:
+                bad = ('no-notification', 'subscribed, but neither a report nor the end message was sent')
+            for note in sd['notifications']:
+                n_notes += 1
+                n_coded += note['ce'] is not None
+                if note.get('decode_error') or note.get('document') != 'Envelope':
+                    bad = bad or ('lossy', f'{note.get("action")} sent to the subscriber does not decode to a SOAP envelope: {note}')
+                else:
+                    co = choice_oracle(sd['accept'], enabled, note['ce'])
+                    if co:
+                        bad = bad or (co[0], f'{note["action"]} POSTed to a subscriber whose Subscribe request said Accept-Encoding '
+                                             f'{sd["accept"]!r} (locally enabled: {enabled}): {co[1]}')
+            if bad:
+                ctx.fail(f'notify: {bad[1]}', {'stream': 'notify', 'clause': bad[0]},
+                         {'stream': 'notify', 'case': {'enabled': c['enabled'], 'chunk': c['chunk'], 'accepts': [sd['accept']]},
+                          'impl_trace': sd, 'oracle': {'verdict': 'fail', 'clause': bad[0]}})
+    ctx.count('notify', n_notes, [json_key(c) for c in notify_cases], scenarios=len(notify_cases), notifications_coded=n_coded,
+              subscribers_that_allow_no_enabled_coding=n_none_allowed, oracle_only=True)
     hist = {}
     for c, tr in zip(codec_cases, impl['codec']):
         if tr.get('exc') or not tr.get('roundtrip'):
@@ -818,7 +861,10 @@ def run(ctx):
              'config: set_used_compression on provider / consumer before and after start, several times; after each call the running '
              'http server, an existing and a new SOAP client are probed (only codings enabled at that moment). conn responses are split '
              'by a strict RFC 7230 3.3 reader (exactly one of Content-Length / chunked, length = bytes on the wire), GET and POST alike. '
-             'e2e/raw/codec/config are oracle-only. distinct = distinct inputs.',
+             'notify: Subscribe requests with every kind of Accept-Encoding (incl. all-zero, empty, absent) to a real provider, then two '
+             'reports and the end message through the real subscriptions manager and sync SoapClient with a recording connection: every '
+             'notification decodes to its document and uses only a coding the Subscribe allowed. '
+             'e2e/raw/codec/config/notify are oracle-only. distinct = distinct inputs.',
         assumptions=['decompress c (compress c b) = b for the registered codings (premise of the two round-trip theorems; '
                      'checked by the codec stream on every run)',
                      'http.client decodes strictly well-formed chunked bodies (premise of C17_response_roundtrip; checked by '
@@ -882,7 +928,7 @@ def replay(ctx, rep):
         out['impl'] = ctx.impl('c17_impl', {'client_choice': [{'request_encodings': [lh(x) for x in case['request_encodings']],
                                                                 'supported': [lh(x) for x in case['supported']], 'chunk': case.get('chunk', 0)}]})['client_choice'][0]
         out['model'] = ctx.coq_eval(HEADER, f'run_client_choice ({BL([lat(x) for x in case["request_encodings"]])}, {BL([lat(x) for x in case["supported"]])})')
-    elif stream in ('e2e', 'raw', 'codec', 'conn', 'config'):
+    elif stream in ('e2e', 'raw', 'codec', 'conn', 'config', 'notify'):
         if stream == 'raw' and 'raw' not in case:
             hdr = case.get('header')
             body = bytes.fromhex(case['body'])
